@@ -57,7 +57,21 @@ func (fr *Frame) execInstr(ins ssa.Instruction, st *State) error {
 		addr := fr.val(t.Addr)
 		pt := t.Addr.Type().Underlying().(*types.Pointer).Elem()
 		fr.nilCheck(st, t.Addr, addr, t.Pos())
-		vc.store(st, addr, pt, fr.val(t.Val))
+		sv := fr.val(t.Val)
+		// a reference stored into memory other than a private local makes its object reachable
+		// by code we do not execute
+		private := false
+		if al, ok := t.Addr.(*ssa.Alloc); ok {
+			for _, ai := range vc.allocs {
+				if ai.ref == fr.val(al).C[0] && !ai.escaped {
+					private = true
+				}
+			}
+		}
+		if !private {
+			fr.escapeArgs([]Value{sv})
+		}
+		vc.store(st, addr, pt, sv)
 		return nil
 	case *ssa.UnOp:
 		return fr.execUnOp(t, st)
@@ -175,7 +189,7 @@ func (fr *Frame) execInstr(ins ssa.Instruction, st *State) error {
 				}
 				pkg := vc.eng.pkgTypes(c.Pkg)
 				for _, r := range c.Requires {
-					v, _, err := fr.evalIn(r.Text, pkg, env, st, st, nil)
+					v, sks, err := fr.evalInGoal(r.Text, pkg, env, st, st)
 					if err != nil {
 						return fmt.Errorf("%s:%d: %v", r.File, r.Line, err)
 					}
@@ -183,7 +197,7 @@ func (fr *Frame) execInstr(ins ssa.Instruction, st *State) error {
 					if fr.parent != nil {
 						nm = funcKey(fr.fn) + ":" + nm
 					}
-					vc.obligeHinted(st, "pre", nm, v.C[0], nil, t.Pos(), r.Text)
+					vc.obligeHinted(st, "pre", nm, v.C[0], sks, t.Pos(), r.Text)
 				}
 			}
 		}
@@ -217,7 +231,8 @@ func (fr *Frame) execInstr(ins ssa.Instruction, st *State) error {
 		ln := fr.val(t.Len).C[0]
 		cp := fr.val(t.Cap).C[0]
 		fr.implicit(st, "make", sAnd("(<= 0 "+ln+")", "(<= "+ln+" "+cp+")"), t.Pos(), isCallNode, "make "+t.Name())
-		a := vc.newAlloc(st, types.NewArray(et, 0), true)
+		// a fresh backing array: private until it is handed to code we do not execute
+		a := vc.newAlloc(st, types.NewArray(et, 0), false)
 		// zero contents
 		ek := "M." + typeKey(et)
 		if _, isS := isStruct(et); !isS {
@@ -830,6 +845,7 @@ func (fr *Frame) chanInvTerm(c *Clause, pkg *types.Package, v Value, et types.Ty
 }
 
 func (fr *Frame) execSend(t *ssa.Send, st *State) error {
+	fr.escapeArgs([]Value{fr.val(t.X)})
 	if c, pkg := fr.chanInvOf(t.Chan); c != nil && fr.dry == 0 {
 		et := t.Chan.Type().Underlying().(*types.Chan).Elem()
 		g, err := fr.chanInvTerm(c, pkg, fr.val(t.X), et, st)
